@@ -81,6 +81,14 @@ def mostDerived (defs : List (String × α)) : List (String × α) :=
   let names := (defs.map (·.1)).eraseDups
   names.filterMap fun n => (defs.reverse.find? (fun d => d.1 == n))
 
+def usedOf (l : List (Nat × Bool)) (id : Nat) : Bool :=
+  match l.find? (fun p => p.1 == id) with | some p => p.2 | none => false
+
+/-- a block of object `o` enters the call iff its flag is on and `o` is used as random
+    (`RandInfoBuilder.visit_constraint_block` / `visit_composite_field`) -/
+def blockActive (h : Toggles) (usedObj : List (Nat × Bool)) (o : Nat) (name : String) : Bool :=
+  enabled h o name && usedOf usedObj o
+
 def insertSorted (x : String × α) : List (String × α) → List (String × α)
   | [] => [x]
   | y :: ys => if x.1 < y.1 then x :: y :: ys else y :: insertSorted x ys
